@@ -83,7 +83,8 @@ def stepwise_cases(draw, tier="quick"):
         vf_lambda=draw(st.sampled_from([0.0, 0.5, 1.0, 2.5])),
         entropy_lambda=draw(st.sampled_from([0.0, 0.01, 0.1])),
         max_grad_norm=draw(st.sampled_from([None, 0.5])),
-        reward_scale=draw(st.sampled_from([None, None, 2, 10])),
+        # (audit item 26: the running-moment scalers "norm" / "scale", applied to every decoding step's reward in turn)
+        reward_scale=draw(st.sampled_from([None, None, 2, 10, "norm", "scale"])),
         opt=draw(st.sampled_from(["noop", "noise", "noise"])),
         sigma=draw(st.sampled_from([0.05, 0.1, 0.2])),
     )
@@ -122,6 +123,9 @@ def nstep_cases(draw, tier="quick"):
         sigma=draw(st.sampled_from([0.02, 0.05, 0.1])),
         dseed=draw(SEED), sseed=draw(SEED),
     )
+    # audit H5: a second shared_step on the same model, after the (fake) optimiser moved the parameters
+    if draw(st.integers(0, 2)) == 0:
+        c["second"] = dict(dseed=draw(SEED), sseed=draw(SEED))
     return c
 
 
@@ -228,7 +232,14 @@ def exec_stepwise(case, ctx):
     c16._CUR["sig"] = sig
     cap = {"eval": None, "actor": None}
     state = {"n": 0, "upd_steps": 0, "rows": 0, "losses": [], "nontriv": False, "perturbed": False}
-    rscale = 1.0 if case["reward_scale"] is None else float(case["reward_scale"])
+    str_scale = isinstance(case["reward_scale"], str)
+    rscale = 1.0 if case["reward_scale"] is None or str_scale else float(case["reward_scale"])
+    # reference model of the running-moment scaler: float64 two-pass moments over every step reward seen so far, in
+    # the order of the decoding steps (the scaler is updated with a step's rewards before it transforms them)
+    ref_scaler = c16.RefScaler(case["reward_scale"]) if str_scale else None
+    if str_scale:
+        sig = f"stepwise_ppo|scale={case['reward_scale']}"
+        c16._CUR["sig"] = sig
 
     # ---- recorders (installed after construction: policy_old stays untouched)
     orig_eval = pol.evaluate
@@ -248,6 +259,23 @@ def exec_stepwise(case, ctx):
         state["rows"] += td.shape[0]
         ctx.check(not td["reward"].requires_grad and not td["logprobs"].requires_grad, f"old_requires_grad|{sig}",
                   "rewards / old log-probs entering the experience buffer carry a gradient")
+        if str_scale:
+            raw = -(td["next", "lbs"].double().max(1).values - td["lbs"].double().max(1).values)
+            want = ref_scaler(raw, float(raw.abs().max()))
+            got = td["reward"].detach().double().reshape(-1)
+            if ref_scaler.cond > 200:
+                ctx.exclude("scaler_ill_conditioned")
+            else:
+                cond = ref_scaler.cond
+                loose = 2.0 * (1.0 + cond) + c16.EPS32 * (1.0 + cond) ** 2 / c16.VAL_RTOL
+                # (the running mean carries a float32 error relative to the largest step reward of the whole history)
+                hist_max = float(torch.cat(ref_scaler.seen).abs().max())
+                tol = c16.VAL_RTOL * loose * (want.abs() + ref_scaler.amp * hist_max) + 1e-9
+                ctx.check(got.shape == want.shape and bool(((got - want).abs() <= tol).all()), f"scaled_step_reward|{sig}",
+                          f"stored step reward is not the {case['reward_scale']!r}-scaled step reward under the running "
+                          f"mean / std of all {len(torch.cat(ref_scaler.seen))} step rewards seen so far",
+                          {"got": got, "want": want, "raw": raw})
+                ctx.event("scaled_step_reward_checked")
         return orig_extend(td, *a, **k)
 
     model.rb.extend = _shield(box, extend_spy)
@@ -276,9 +304,10 @@ def exec_stepwise(case, ctx):
         R64 = R.detach().double().reshape(b)
         # rows travel together through the sampler: the stored reward is the documented step reward of the row's own
         # transition, -(max lower bound after - max lower bound before), divided by the integer reward_scale
-        r_row = -(sub_td["next", "lbs"].double().max(1).values - sub_td["lbs"].double().max(1).values) / rscale
-        ctx.check(bool(((R64 - r_row).abs() <= 1e-4 * (1 + r_row.abs())).all()), f"reward_rows|{sig}",
-                  "mini-batch reward is not the step reward of the row's own transition", {"R": R64, "ref": r_row})
+        if not str_scale:  # (running-moment scalers: checked in decoding order when the rows enter the buffer)
+            r_row = -(sub_td["next", "lbs"].double().max(1).values - sub_td["lbs"].double().max(1).values) / rscale
+            ctx.check(bool(((R64 - r_row).abs() <= 1e-4 * (1 + r_row.abs())).all()), f"reward_rows|{sig}",
+                      "mini-batch reward is not the step reward of the row's own transition", {"R": R64, "ref": r_row})
         # the evaluated quantities are log-probability of the stored action and entropy of the masked policy
         z = (torch.tanh(logits.double()) * TANH_CLIP).masked_fill(~mask, -INF)
         logp_all = torch.log_softmax(z, -1)
@@ -394,6 +423,7 @@ def exec_stepwise(case, ctx):
         state["updates"] += 1
         ctx.event(f"minibatches={'1' if N // m == 1 else 'many'}")
     ctx.event(f"env={case['env']}")
+    ctx.event(f"reward_scale={case['reward_scale'] if str_scale or case['reward_scale'] is None else 'int'}")
     ctx.event(f"opt={case['opt']}")
     ctx.event(f"entropy={'on' if case['entropy_lambda'] else 'off'}")
     if state["nontriv"]:
@@ -576,6 +606,8 @@ def exec_nstep(case, ctx):
             seg["V_old"] = V64.clone()
         Vold64 = seg["V_old"]
         rho64 = torch.exp(ll64 - old64)
+        # (parameters as they were when this segment was rolled out: inner epoch 0 always, later inner epochs only with
+        #  the no-op optimiser; a second shared_step starts from moved parameters and must again see rho == 1 at k = 0)
         perturbed = opt.mode == "noise" and opt.n > 0
         if kk == 0 or not (perturbed or case["dropout"]):
             tol = _rtol_rho(ll64.abs(), case["norm"] == "batch")
@@ -648,17 +680,22 @@ def exec_nstep(case, ctx):
     model.manual_backward = _shield(box, manual_backward)
     model.clip_gradients = clip_gradients
 
-    torch.manual_seed(case["dseed"])
-    batch = env.generator(B)
-    torch.manual_seed(case["sseed"])
-    res = _guarded(ctx, box, model.shared_step, batch.clone(), 0, "train",
-                   what=f"shared_step|nstep_ppo|{case['model']}")
-    ctx.check(state["n"] == case["segments"] * case["ppo_epochs"] and state["segments"] == case["segments"],
-              f"inner_steps|{sig}", f"{state['n']} inner steps / {state['segments']} rollout segments for T_train "
-              f"{n * case['segments']}, n_step {n}, ppo_epochs {case['ppo_epochs']}")
-    ctx.check(state["last"] is not None and torch.is_tensor(res["loss"]) and
-              float(res["loss"]) == float(state["last"]), f"returned_loss|{sig}",
-              "shared_step does not return the last inner loss")
+    for k, stp in enumerate([case] + ([case["second"]] if case.get("second") else [])):
+        n0, seg0 = state["n"], state["segments"]
+        state["last"] = None
+        torch.manual_seed(stp["dseed"])
+        batch = env.generator(B)
+        torch.manual_seed(stp["sseed"])
+        res = _guarded(ctx, box, model.shared_step, batch.clone(), k, "train",
+                       what=f"shared_step|nstep_ppo|{case['model']}" + ("|second" if k else ""))
+        ctx.check(state["n"] - n0 == case["segments"] * case["ppo_epochs"] and state["segments"] - seg0 == case["segments"],
+                  f"inner_steps|{sig}", f"{state['n'] - n0} inner steps / {state['segments'] - seg0} rollout segments for "
+                  f"T_train {n * case['segments']}, n_step {n}, ppo_epochs {case['ppo_epochs']} (shared_step #{k})")
+        ctx.check(state["last"] is not None and torch.is_tensor(res["loss"]) and
+                  float(res["loss"]) == float(state["last"]), f"returned_loss|{sig}",
+                  "shared_step does not return the last inner loss")
+        if k:
+            ctx.event("second_shared_step" + ("_after_parameter_change" if opt.mode == "noise" else ""))
     ctx.event(f"model={case['model']}")
     ctx.event(f"opt={case['opt']}")
     ctx.event(f"n_step={'1' if n == 1 else '>=2'}")
